@@ -1,4 +1,4 @@
 INIT Init
 NEXT Next
 CONSTANTS
-  ValClasses = {"zero", "one", "mone", "min", "max"}
+  ValClasses = {"zero", "one", "mone", "min", "max", "nan", "inf"}
